@@ -13,7 +13,7 @@ def cfg_text(depth, msh=True, fields=2):
 
 def model_check(ctx):
     depth = 6 if ctx.tier == "quick" else 8
-    cfg = os.path.join(tlc.SPEC_DIR, "_gen_Er7MC_%s.cfg" % ctx.tier)
+    cfg = os.path.join(tlc.SPEC_DIR, "_gen_Er7MC_%s_%d.cfg" % (ctx.tier, os.getpid()))
     with open(cfg, "w") as f:
         f.write(cfg_text(depth))
     try:
